@@ -7,7 +7,7 @@ SIM_NOTE = ("Trusted: Coq kernel; extraction (ExtrOcamlBasic only); the hand-wri
             "HwInstruction's converter guarantees).")
 PURE_NOTE = ("Trusted: Coq kernel; extraction (ExtrOcamlBasic only); the hand-written model is tied to the Python source "
              "only by the differential correspondence run (exhaustive small scope + random larger cases); harness glue; "
-             "fastcore shim; 7-bit text.")
+             "fastcore shim; Latin-1 text (code points 0-255; str.upper not modelled for U+00B5/DF/FF).")
 
 
 def sim(text, technique="Coq proof (step invariants lifted over reachable states) + extracted-model correspondence"):
@@ -54,7 +54,7 @@ CLAIMS = {
                     "Correspondence: exhaustive small scope of record pairs + random larger ones against BagValDict ==, len, repr.",
             "note": PURE_NOTE, "technique": "Coq proof (sorting/permutation lemmas) + exhaustive and random correspondence"},
     "C18": {"text": "Coq theorems C18_eq, C18_hash, C18_order (strict total order compatible with equality), C18_contains, "
-                    "C18_str, C18_lower_facts over the model of ICaseString on 7-bit text. Correspondence: all pairs of "
+                    "C18_str, C18_lower_facts over the model of ICaseString on Latin-1 text (code points 0-255; str.upper not modelled for U+00B5/DF/FF). Correspondence: all pairs of "
                     "strings up to length 2 (quick) / 3 (thorough) over {a,A,b,B,1,space} + random printable pairs against "
                     "ICaseString ==, <, hash, in, str.",
             "note": PURE_NOTE, "technique": "Coq proof + exhaustive and random correspondence"},
@@ -67,7 +67,7 @@ CLAIMS = {
 }
 TEXT_NOTE = ("Trusted: Coq kernel; extraction (ExtrOcamlBasic only); the hand-written models coq/model/Program.v, Isa.v, "
              "Loader.v, Cli.v are tied to the Python source only by the differential correspondence run; harness glue; "
-             "fastcore shim; 7-bit text; Python's re/str.strip/csv/PyYAML/typer are modelled or exercised, not verified.")
+             "fastcore shim; Latin-1 text (code points 0-255; str.upper not modelled for U+00B5/DF/FF); Python's re/str.strip/csv/PyYAML/typer are modelled or exercised, not verified.")
 CLAIMS.update({
     "C09": {"text": "Coq theorems C09_sound (every processor the loader model returns satisfies C09_checkb: acyclic, names unique "
                     "ignoring case, positive widths, no unit without capabilities, every connection joins units sharing a "
@@ -115,7 +115,7 @@ CLAIMS.update({
                     "and tokens free of blanks/commas, read_program returns exactly the written instructions with 1-based "
                     "physical line numbers, destination first, sources deduplicated and sorted, first spellings), "
                     "C14_strip_invariant, C14_no_operands, C14_empty_operand (error carries line, mnemonic, position of the "
-                    "first empty operand). Correspondence: generated programs with all ASCII whitespace characters and "
+                    "first empty operand). Correspondence: generated programs with all Latin-1 whitespace characters and "
                     "single-fault corruptions; independent oracle from the generated instruction list.",
             "note": TEXT_NOTE, "technique": "Coq proof (string lemmas for strip/split) + differential correspondence"},
     "C15": {"text": "Coq theorems C15_isa_ok, C15_isa_reject, C15_isa_first_defect, C15_abilities, C15_compile_ok, "
